@@ -38,6 +38,8 @@ UNARY = [
     "(t / 2).long()", "(t * 0.75).int()", "t.long() % 2", "(t * 1.5).to(torch.long)", "(t / 4).to(dtype=torch.int64)", "t.long() ^ 1", "(t.long() & 1) ^ (t.long() >> 1 & 1)", "t[::2]", "t[1::2]", "t[..., 1::2]", "t.flatten()[::3]",
     "t.permute(*range(t.dim() - 1, -1, -1))", "t.transpose(0, -1).transpose(0, -1)", "t.unsqueeze(-1)", "t.unsqueeze(1)", "t.unsqueeze(t.dim())", "t.repeat(*([2] * t.dim()))", "t.repeat(2, *([1] * t.dim()))", "t.cumsum({d})", "t.cumsum(dim={d})",
     "torch.where(t > 0, t, torch.zeros_like(t))", "torch.where(t.abs() > 1, torch.ones_like(t), -torch.ones_like(t))", "t @ t.transpose(-1, -2) if t.dim() >= 2 else t @ t", "t.swapaxes(0, -1)",
+    "torch.real(torch.complex(t, -t) * torch.conj(torch.complex(t, -t)))", "torch.imag(torch.complex(t, 2 * t))", "torch.complex(t, -t).real + torch.complex(t, -t).imag", "torch.abs(torch.complex(t, t)) ** 2", "torch.complex(t, -t).conj().imag",
+    "t.masked_fill(t > 0, float('inf')).amin(dim={d})", "t.masked_fill(t <= 0, float('-inf')).amax(dim={d})", "torch.amin(t, dim={d})", "t.amax(dim={d}, keepdim=True)", "t.masked_fill(t == 0, 5)", "(t.unsqueeze(-1) - t.flatten()[:2]) ** 2",
     "t.unbind(dim={d})[0]", "t.unbind({d})[-1]", "len(t.unbind(dim={d}))", "t.unbind()[0]",
     "t.any(dim={d}).numel()", "t.all(dim={d}, keepdim=True).sum()", "t.logical_not()", "torch.logical_and(t > 0, t < 2)", "torch.logical_xor(t > 0, t < 2)", "t.eq(1)", "t.ne(1)", "t.gt(0)", "t.le(0)", "torch.eq(t, 1)",
 ]
@@ -58,6 +60,10 @@ FRAGMENTS = [
     "rows = []\nfor i in range(t.shape[0]):\n    rows.append(t[i] * 2)\nr = torch.stack(rows)",
     "parts = [t[:, :1], t[:, 1:]]\nr = torch.cat(parts, dim=1)",
     "r = t.reshape(-1)[::2]",
+    "r = t[::2, 1]",
+    "r = t[:, ::2]",
+    "r = t[1:, 1::2]",
+    "r = t[::1, -1]",
     "r = t.reshape(3, 2).T",
     "r = t.reshape(1, 2, 3).permute(0, 2, 1).reshape(-1)",
     "r = t.reshape(2, 3, 1).squeeze(-1)",
@@ -105,6 +111,10 @@ FRAGMENTS = [
 
 #: fragments that make sense for any rank (run on 1-D, 2-D and 3-D inputs)
 FRAGMENTS_ANY = [
+    "y = t.clone()\ny[..., 0] = 9\nr = y",
+    "y = t.clone()\ny[..., -1] = t[..., 0] * 2\nr = y",
+    "y = torch.zeros((*t.shape, 2))\ny[..., 0] = t\ny[..., 1] = -t\nr = y",
+    "y = torch.zeros((*t.shape, 2))\nfor k in range(2):\n    y[..., k] = t + k\nr = y.reshape(*t.shape[:-1], -1)",
     "y = t.clone()\ny[t > 0] = 7\nr = y",
     "y = t.clone()\nm = t > 0\ny[m] = -y[m]\nr = y",
     "y = t.clone()\nm = t > 0\ny[m] = torch.where(y[m] > 1, torch.zeros_like(y[m]), y[m])\nr = y",
@@ -174,6 +184,8 @@ def same(a, b) -> bool:
     if isinstance(a, list) and isinstance(b, list):
         return len(a) == len(b) and all(same(x, y) for x, y in zip(a, b))
     if isinstance(a, float) and isinstance(b, float):
+        if a == b:
+            return True
         return abs(a - b) <= 1e-5 * max(1.0, abs(a), abs(b)) or (a != a and b != b)
     return a == b
 
